@@ -19,6 +19,9 @@ TRUSTED = ['the cards of the current (incomplete) trick are not public: that fie
 ASSUMPTIONS = ['CPython list/set/dict semantics']
 
 
+# areas of the pure core whose TRANSLATION (Generated/PyCore.lean) is run next to the real code in this check
+TRANSLATED_AREAS = ('play',)
+
 def cases(ctx):
     rng = ctx.rng
     n = 120 if ctx.quick else 700
